@@ -985,11 +985,13 @@ func (h *headReader) Read(ctx context.Context, out frame.Frame) (n int, err erro
 	if h.n <= 0 {
 		return 0, sliceio.EOF
 	}
+	// Never read more than the remaining limit: rows beyond it would be
+	// written into out past the count returned.
+	if h.n < out.Len() {
+		out = out.Slice(0, h.n)
+	}
 	n, err = h.reader.Read(ctx, out)
 	h.n -= n
-	if h.n < 0 {
-		n -= -h.n
-	}
 	return
 }
 
